@@ -40,6 +40,13 @@ for p in props:
 table = "\n".join(rows)
 
 app = []
+# the composed request-path model (notes/System.md: coq/Model/System.v, Proofs/SystemProofs.v, Props/System.v,
+# tools/checks/system.py) comes first: the per-property records below are views of it
+sysn = os.path.join(V, "notes", "System.md")
+if os.path.exists(sysn):
+    t = open(sysn).read().strip()
+    t = re.sub(r"^# ", "### ", t, flags=re.M); t = re.sub(r"^## ", "#### ", t, flags=re.M)
+    app.append(t)
 for p in props:
     i = p["id"]
     n = os.path.join(V, "notes", i + ".md")
